@@ -194,7 +194,7 @@ func VC18IO() {
 	vAssume(p != 0)
 	io.Out(p, v)
 	vAssert("other-port-silent", cons.n == 2)
-	vAssert("other-port-warns", vWarnCount() == 1)
+	vAssert("other-port-warns", vWarnCount() >= 1)
 	// again, same port: still nothing on the console (whether it warns every
 	// time or once per port is left open)
 	io.Out(p, w)
@@ -203,8 +203,50 @@ func VC18IO() {
 	q := vU8("q")
 	r := io.In(q)
 	vAssert("in-silent", cons.n == 2)
-	vAssert("in-warns", vWarnCount() == before+1)
-	vAssert("in-returns-0", r == 0)
+	vAssert("in-warns", vWarnCount() > before)
+	_ = r // the value a port read returns is not part of the property
+}
+
+// a console that also offers WriteByte (an io.ByteWriter, like *bytes.Buffer or
+// *bufio.Writer): however the IO delivers the byte, it must end up in this writer
+type vConsoleB struct{ vConsole }
+
+func (c *vConsoleB) WriteByte(b byte) error {
+	if c.n < len(c.buf) {
+		c.buf[c.n] = b
+	}
+	c.n++
+	return nil
+}
+
+// "the configured writer": the one set last.  Two writers (each plain or also a
+// ByteWriter, kinds = 0..3) are configured one after the other; every byte goes
+// to the writer configured at the time, nothing to the other.
+func VC18Reconfig(kinds int) {
+	_, io, _ := vMachine()
+	pa, pb := &vConsole{}, &vConsole{}
+	ba, bb := &vConsoleB{}, &vConsoleB{}
+	a, b := pa, pb
+	if kinds&1 != 0 {
+		io.SetStdout(ba)
+		a = &ba.vConsole
+	} else {
+		io.SetStdout(pa)
+	}
+	v1, v2, v3 := vU8("v1"), vU8("v2"), vU8("v3")
+	io.Out(0, v1)
+	vAssert("first-writer-gets-first-byte", vAnd(a.n == 1, a.buf[0] == v1))
+	if kinds&2 != 0 {
+		io.SetStdout(bb)
+		b = &bb.vConsole
+	} else {
+		io.SetStdout(pb)
+	}
+	io.Out(0, v2)
+	io.Out(0, v3)
+	vAssert("second-writer-gets-the-rest", vAnd(b.n == 2, vAnd(b.buf[0] == v2, b.buf[1] == v3)))
+	vAssert("first-writer-gets-nothing-more", a.n == 1)
+	vAssert("no-warning", vWarnCount() == 0)
 }
 
 // a sequence of calls: function 2, then function 9 with a one-character string
